@@ -58,6 +58,10 @@ pub struct Spec {
     /// name of the string table that `.symtab` links to (None: `.strtab`); with Some(..) the file also has a decoy
     /// section called `.strtab` (a string table that does not hold the symbol names)
     pub symstr_name: Option<String>,
+    /// header fields the loader has no business looking at.  0: sh_flags 0, sh_info 0, sh_addralign 4, st_size 0,
+    /// st_other 0 everywhere; k > 0: section i gets sh_flags / sh_info / sh_addralign from small sets rotated by i + k
+    /// (sh_addralign runs through 0, 1, 2, 4, 8, 16, H'1000), symbol j gets st_size 8j + 4 and st_other (j + k) % 4
+    pub sh_misc: u32,
 }
 
 fn be16(v: &mut Vec<u8>, x: u16) {
@@ -193,10 +197,11 @@ impl Spec {
             strtab.push(0);
             be32(&mut symtab, ni);
             be32(&mut symtab, *v);
-            be32(&mut symtab, 0);
+            let nsym = symtab.len() as u32 / 16;
+            be32(&mut symtab, if self.sh_misc > 0 { 8 * nsym + 4 } else { 0 });
             let (info, shndx) = if n == "___exit" { self.exit_attr.unwrap_or((0x12, 1)) } else { (0x12, 1) };
             symtab.push(info);
-            symtab.push(0);
+            symtab.push(if self.sh_misc > 0 { ((nsym + self.sh_misc) % 4) as u8 } else { 0 });
             be16(&mut symtab, shndx);
         }
         let shstr_off = off;
@@ -303,15 +308,21 @@ impl Spec {
                 ".strtab" => (3, 0, shstr_off, shstr.len() as u32, 0, 0),
                 _ => (1, 0x10 * i as u32, shstr_off, 0, 0, 0),
             };
+            let r = i + self.sh_misc as usize;
+            let (flags, info, addralign) = if self.sh_misc > 0 && i > 0 {
+                ([0u32, 3, 6, 0x30, 0x7][r % 5], [0u32, 1, 5, i as u32][r % 4], [0u32, 1, 2, 4, 8, 16, 0x1000][r % 7])
+            } else {
+                (0, 0, 4)
+            };
             be32(&mut sh, name_idx[i]);
             be32(&mut sh, ty);
-            be32(&mut sh, 0);
+            be32(&mut sh, flags);
             be32(&mut sh, addr);
             be32(&mut sh, offset);
             be32(&mut sh, size);
             be32(&mut sh, link);
-            be32(&mut sh, 0);
-            be32(&mut sh, 4);
+            be32(&mut sh, info);
+            be32(&mut sh, addralign);
             be32(&mut sh, entsize);
         }
         put(&mut f, shoff, &sh);
@@ -338,6 +349,7 @@ impl Spec {
             "exit_attr": self.exit_attr.map(|x| json!([x.0, x.1])),
             "table_layout": self.table_layout,
             "symstr_name": self.symstr_name,
+            "sh_misc": self.sh_misc,
             "nonload": self.nonload.iter().map(|x| json!([x.0, x.1, x.2, x.3])).collect::<Vec<_>>(),
             "file_order": self.file_order,
             "got": self.got.as_ref().map(|(a, e)| json!([a, e])),
@@ -367,6 +379,7 @@ impl Spec {
             entry: v["entry"].as_u64().map(|y| y as u32),
             table_layout: v["table_layout"].as_u64().unwrap_or(0) as u32,
             symstr_name: v["symstr_name"].as_str().map(|x| x.to_string()),
+            sh_misc: v["sh_misc"].as_u64().unwrap_or(0) as u32,
             exit_attr: v["exit_attr"].as_array().map(|a| (a[0].as_u64().unwrap_or(0x12) as u8, a[1].as_u64().unwrap_or(1) as u16)),
             paddrs: v["paddrs"].as_array().map(|a| a.iter().map(|x| x.as_u64().map(|y| y as u32)).collect()).unwrap_or_default(),
             file_pads: v["file_pads"].as_array().map(|a| a.iter().map(|x| u(x).unwrap_or(0)).collect()).unwrap_or_default(),
@@ -399,6 +412,7 @@ pub fn default_spec() -> Spec {
         exit_attr: None,
         table_layout: 0,
         symstr_name: None,
+        sh_misc: 0,
     }
 }
 
@@ -812,6 +826,17 @@ pub fn specs(tier: Tier) -> Vec<Spec> {
                 sp.nonload = if oi == 1 { vec![(1, 4, 0, 0)] } else { vec![] };
                 out.push(sp);
             }
+        }
+    }
+    // ---- factor: header fields that carry no meaning for the loader (sh_flags, sh_info, sh_addralign, st_size,
+    //      st_other): every section, `.stack` included, under every sh_addralign of 0, 1, 2, 4, 8, 16, H'1000, with
+    //      stack sizes whose region end is / is not a multiple of 8 and 16 (C12-M11)
+    for k in 1..=7u32 {
+        for stack in [0x400u32, 0x404, 0x3f1, 0x1008] {
+            let mut sp = d.clone();
+            sp.sh_misc = k;
+            sp.stack_size = stack;
+            out.push(sp);
         }
     }
     // ---- factor: non-load program headers in every position (incl. last), 0-2 of them; p_type values whose low
